@@ -1,7 +1,7 @@
 (* C07 -- batches partition the work exactly and honour the requested size or count.
    Property theorems only; every proof is `exact`/short assembly of lemmas from Proofs/. *)
 From XV Require Import Prelude Batch GenBatch BridgeBatch BatchProofs.
-From XV Require Stages GenStages BridgeStages.
+From XV Require Stages GenStages BridgeStages Farmer GenFarmer BridgeFarmer.
 Open Scope Z_scope.
 
 Definition sizes_ok {A} (bs : list (list A)) (f : Z -> Z) : Prop :=
@@ -109,6 +109,14 @@ Lemma C07_planner_without_combos_refuted :
   Stages.descr_size (Stages.dterm_eval Stages.DAbsent x) <> Stages.descr_size (Stages.dterm_eval (Stages.DParse Stages.DArg) x).
 Proof. vm_compute. discriminate. Qed.
 
+(* every sown setting carries the keyword arguments of a direct run: the constants merged into the settings at
+   sow time (runner resources, overridden by runner constants, overridden by the call's constants) have the
+   precedence of a direct run (Crop.parse_constants and combo_runner_to_ds, regenerated) *)
+Theorem C07_sown_kwargs_precedence :
+  GenFarmer.gen_sown_constants_order = GenFarmer.gen_direct_constants_order
+  /\ GenFarmer.gen_sown_constants_order = [Farmer.CResources; Farmer.CRunnerConstants; Farmer.CCallConstants].
+Proof. split; [exact BridgeFarmer.bridge_constants_order|reflexivity]. Qed.
+
 (* the tie: the definitions regenerated from cropping.py on this run are the model *)
 Theorem C07_code_tie :
   (forall cne pc sne lc bs nb r,
@@ -135,4 +143,5 @@ Print Assumptions C07_by_count.
 Print Assumptions C07_nonempty.
 Print Assumptions C07_reload.
 Print Assumptions C07_planner_counts_what_is_sown.
+Print Assumptions C07_sown_kwargs_precedence.
 Print Assumptions C07_code_tie.
